@@ -125,6 +125,9 @@ func c09Execute(ops []c09Op) (r c09Run) {
 				g.NewAndInit(func(cb *gogen.CodeBuilder) int { cb.Val(ref); return 1 }, token.NoPos, nil, fmt.Sprintf("zzv%d", nfn))
 			} else if o.Kept {
 				nfn++
+				// the model names imports in the order of the references in the file's declarations; a group
+				// is extended only while it is the file's last declaration, so that order is the op order
+				delete(groups, o.F)
 				cb := pkg.NewFunc(nil, fmt.Sprintf("zz%d", nfn), nil, nil, false).BodyStart(pkg)
 				cb.VarRef(nil).Val(ref).Assign(1).End()
 			} else { // the front end builds the reference, then throws the expression away
@@ -137,6 +140,7 @@ func c09Execute(ops []c09Op) (r c09Run) {
 			pkg.ForceImport(c09Pkgs[o.P].Path)
 		case "declare":
 			pkg.SetCurFile(fileName(o.F), true)
+			delete(groups, o.F)
 			switch o.How {
 			case "func":
 				pkg.NewFunc(nil, o.Name, nil, nil, false).BodyStart(pkg).End()
